@@ -12,10 +12,22 @@ build() { # rebuilds from /repo's current working tree (go build recompiles edit
   (cd /verif/mc && cp -f /repo/go.sum go.sum 2>/dev/null; go build -tags verif -o "$BIN/vcheck" ./cmd/vcheck) || { echo "BUILD FAILED (vcheck against /repo working tree)"; exit 2; }
 }
 
+build_sched() { # second binary: sync in cache/server/inmemory replaced by the scheduler shim (go build -overlay)
+  python3 /verif/tools/mkoverlay.py /verif/.ovl >/dev/null || { echo "OVERLAY GENERATION FAILED"; exit 2; }
+  (cd /verif/mc && go build -tags "verif vsched" -overlay /verif/.ovl/overlay.json -o "$BIN/vsched" ./cmd/vcheck) || { echo "BUILD FAILED (vsched with overlay)"; exit 2; }
+}
+
 case "${1:-}" in
   setup)
     build
+    build_sched
     echo "setup ok"
+    ;;
+  C14|C17)
+    id=$1; tier=${2:-${VERIF_TIER:-quick}}
+    build_sched
+    shift; shift
+    exec "$BIN/vsched" "$id" "$tier" "$@"
     ;;
   C[0-9][0-9])
     id=$1; tier=${2:-${VERIF_TIER:-quick}}
